@@ -31,6 +31,7 @@ type Registry struct {
 	Opts  map[string]HarnessOpts    `json:"opts"`  // harness -> options
 	Tier  map[string]map[string]HarnessOpts `json:"tier_opts"` // tier -> harness -> options
 	Skip  map[string][]string       `json:"quick_skip"` // property -> harnesses only run in thorough
+	BorrowQ map[string][]string     `json:"borrowed_quick"` // property -> harnesses of another property that keep the quick bounds in this property's thorough tier
 	Wiring map[string][]string      `json:"wiring"` // property -> harnesses of package w (loads the application package)
 	Bounds map[string]string        `json:"bounds"` // harness -> human description of bounds
 	Assume map[string][]string      `json:"assumptions"` // property -> assumptions text
@@ -432,10 +433,18 @@ func cmdRun(args []string) int {
 	knownSeen := map[string]bool{}
 	for _, n := range names {
 		opts := reg.Opts[n]
-		if to, ok := reg.Tier[tier][n]; ok {
+		ht := tier
+		if tier == "thorough" {
+			for _, b := range reg.BorrowQ[prop] {
+				if b == n {
+					ht = "quick" // deep bounds of this harness are explored under its owner properties
+				}
+			}
+		}
+		if to, ok := reg.Tier[ht][n]; ok {
 			opts = to
 		}
-		hr := e.RunHarness(prop, n, tier, opts, known)
+		hr := e.RunHarness(prop, n, ht, opts, known)
 		runs = append(runs, hr)
 		printHarness(hr, false)
 		if len(hr.EngineErr) > 0 {
